@@ -133,7 +133,7 @@ func ruleKeyAfterCompare(c *core.Ctx) {
 										break
 									}
 									// one side must be the stored /U or /O
-									s := core.ExprStr(call.Args[0]) + " " + core.ExprStr(call.Args[1])
+									s := core.ExprStrAliased(fn, call.Args[0]) + " " + core.ExprStrAliased(fn, call.Args[1])
 									if !strings.Contains(s, "sec.U") && !strings.Contains(s, "sec.O") {
 										all = false
 										break
